@@ -152,7 +152,9 @@ TraceQuiesce ==
   /\ Trace[l].gor = 0 /\ Trace[l].open = 0
   /\ UNCHANGED <<fs, views, aw, conn>>
 
-TraceNext == TraceQuiesce \/ TraceWorld \/ TraceConnect \/ TraceReq \/ TraceClose \/ TraceProbe \/ TraceSentinel \/ TraceRealPaths
+TraceFsOps == IsEvent("FsOps") /\ UNCHANGED <<fs, views, aw, conn>>    \* informational: the operations of a clean run
+
+TraceNext == TraceQuiesce \/ TraceFsOps \/ TraceWorld \/ TraceConnect \/ TraceReq \/ TraceClose \/ TraceProbe \/ TraceSentinel \/ TraceRealPaths
 
 TraceSpec == TraceInit /\ [][TraceNext]_tvars
 
